@@ -1050,6 +1050,32 @@ class Extractor {
       }
       J.raw("}");
     }
+    // every member function name in declaration order, member templates included (used to recognise renames)
+    J.raw("],\"mnames\":[");
+    first = true;
+    for (const Decl* D : RD->decls()) {
+      std::string nm;
+      if (const auto* M = dyn_cast<CXXMethodDecl>(D)) {
+        if (M->isImplicit() || isa<CXXConstructorDecl>(M) || isa<CXXDestructorDecl>(M) || M->isOverloadedOperator() ||
+            isa<CXXConversionDecl>(M)) {
+          continue;
+        }
+        nm = M->getNameAsString();
+      } else if (const auto* FT = dyn_cast<FunctionTemplateDecl>(D)) {
+        const auto* TD = FT->getTemplatedDecl();
+        if (!TD || isa<CXXConstructorDecl>(TD) || TD->isOverloadedOperator() || isa<CXXConversionDecl>(TD)) {
+          continue;
+        }
+        nm = TD->getNameAsString();
+      } else {
+        continue;
+      }
+      if (!first) {
+        J.raw(",");
+      }
+      first = false;
+      J.num(S(nm));
+    }
     J.raw("]}");
     recJson.push_back(std::move(J.s));
   }
